@@ -20,10 +20,20 @@ import (
 	. "verifharness/genlib"
 )
 
-var gateFuncs = map[string]string{
-	"CheckPermissions":        "GateSudoers",
-	"senderHasPermission":     "GateRoot",
-	"validateRootPermissions": "GateRoot",
+// gateFuncs: function name -> gate kind, for the package being read.  The exported API of the sudo
+// keeper (CheckPermissions, called from other modules) is known by name; the package-local gates are
+// recognised by the NORMAL FORM OF THEIR BODY (see gateForms), whatever they are called, whether they
+// are methods or free functions and whichever file they live in.
+var gateFuncs = map[string]string{"CheckPermissions": "GateSudoers"}
+
+// the condition under which a gate function returns nil, parameters written $0, $1, … and the
+// receiver $r
+var gateForms = map[string]string{
+	"$0==$1": "GateRoot", // (sender, root string)
+	"$1==$0": "GateRoot",
+	"sdk.AccAddressFromBech32($0.Root).Equals(sdk.AccAddressFromBech32($1.Sender))": "GateRoot", // (sudoers, msg)
+	"sdk.AccAddressFromBech32($1.Sender).Equals(sdk.AccAddressFromBech32($0.Root))": "GateRoot",
+	"set.New($r.Sudoers.Get($1).Contracts...).Has($0.String())||$0.String()==$r.Sudoers.Get($1).Root": "GateSudoers",
 }
 
 // calls that write state (collections / bank keeper), as selector names
@@ -163,7 +173,7 @@ func main() {
 	type hnd struct{ module, name, gate string }
 	var sites []site
 	var handlers []hnd
-	accepts := map[string]string{}
+	var gateFns []string
 
 	for _, d := range dirs {
 		files := ParseDir(d)
@@ -179,6 +189,31 @@ func main() {
 				if fd, ok := dd.(*ast.FuncDecl); ok && fd.Body != nil {
 					byName[fd.Name.Name] = append(byName[fd.Name.Name], fd)
 					all = append(all, fd)
+				}
+			}
+		}
+		// the gates of this package, recognised by body (sudo keeper package only: the root tests
+		// live there and nowhere else)
+		for k := range gateFuncs {
+			if k != "CheckPermissions" {
+				delete(gateFuncs, k)
+			}
+		}
+		if module == "sudo" && filepath.Base(d) == "keeper" {
+			for _, fd := range all {
+				if fd.Type.Results == nil || len(fd.Type.Results.List) != 1 || Nospace(fd.Type.Results.List[0].Type) != "error" {
+					continue
+				}
+				form := acceptCondition(fd)
+				kind, ok := gateForms[form]
+				if !ok {
+					continue
+				}
+				if fd.Name.Name == "CheckPermissions" || len(byName[fd.Name.Name]) == 1 {
+					if fd.Name.Name != "CheckPermissions" {
+						gateFuncs[fd.Name.Name] = kind
+					}
+					gateFns = append(gateFns, kind+":"+form)
 				}
 			}
 		}
@@ -294,19 +329,6 @@ func main() {
 			}
 			handlers = append(handlers, hnd{module, recvName(fd) + "." + fd.Name.Name, g})
 		}
-		// the gate functions themselves: the condition under which they return nil
-		for _, fd := range all {
-			switch fd.Name.Name {
-			case "CheckPermissions":
-				if recvName(fd) == "Keeper" && module == "sudo" {
-					accepts["check_permissions_accepts"] = acceptCondition(fd)
-				}
-			case "senderHasPermission":
-				accepts["sender_has_permission_accepts"] = acceptCondition(fd)
-			case "validateRootPermissions":
-				accepts["validate_root_accepts"] = acceptCondition(fd)
-			}
-		}
 	}
 
 	sort.Slice(sites, func(i, j int) bool {
@@ -345,10 +367,16 @@ func main() {
 		fmt.Printf("  {| h_module := %s; h_name := %s; h_gate := %s |}%s\n", CoqString(h.module), CoqString(h.name), h.gate, sep)
 	}
 	fmt.Println("].")
-	fmt.Println("(* the condition under which each gate function returns nil (locals inlined, early-return shape normalised) *)")
-	for _, k := range []string{"check_permissions_accepts", "sender_has_permission_accepts", "validate_root_accepts"} {
-		fmt.Printf("Definition %s : string := %s.\n", k, CoqString(accepts[k]))
+	fmt.Println("(* the gate functions found in x/sudo/keeper, BY BODY: kind and the condition under which they return nil *)")
+	fmt.Println("(* (parameters $0 $1 .., receiver $r, locals inlined, early-return shape normalised; names, receivers and files are irrelevant) *)")
+	sort.Strings(gateFns)
+	var q []string
+	for i, g := range gateFns {
+		if i == 0 || gateFns[i-1] != g {
+			q = append(q, CoqString(g))
+		}
 	}
+	fmt.Printf("Definition gate_functions : list string := [%s].\n", strings.Join(q, "; "))
 }
 
 // ---------------------------------------------------------------- symbolic reading of a gate function
@@ -435,6 +463,19 @@ func negate(c string) string {
 // other way round; anything else is reported as "unknown:<n decisions>".
 func acceptCondition(fd *ast.FuncDecl) string {
 	env := map[string]string{}
+	if fd.Recv != nil && len(fd.Recv.List) == 1 && len(fd.Recv.List[0].Names) == 1 {
+		env[fd.Recv.List[0].Names[0].Name] = "$r"
+	}
+	pi := 0
+	for _, f := range fd.Type.Params.List {
+		for _, nm := range f.Names {
+			env[nm.Name] = fmt.Sprintf("$%d", pi)
+			pi++
+		}
+		if len(f.Names) == 0 {
+			pi++
+		}
+	}
 	type dec struct {
 		cond string
 		nil_ bool
